@@ -218,6 +218,45 @@ func streamPkcs8() {
 			parseCase(fmt.Sprintf("pkcs8-%s-flip-%d", n, i), m, good)
 		}
 	}
+	// every single-bit flip of one key (quick: two curves; thorough: all ten), so that each place where Go's struct-directed
+	// asn1 parser is laxer or stricter than a strict DER reader is visited
+	flipCurves := []string{"P-224", "brainpoolP256r1"}
+	if thorough() {
+		flipCurves = names
+	}
+	for _, n := range flipCurves {
+		c := curveByName[n]
+		d := new(big.Int).Rand(rng, new(big.Int).Sub(c.Params().N, big.NewInt(2)))
+		good := ecKey(n, d.Add(d, big.NewInt(1)))
+		gd, _ := cert.MarshalPKCS8PrivateKey(good)
+		limit := len(gd)
+		if !thorough() && limit > 60 {
+			// the scalar and point octets are data; quick visits the structural head and the region around the [1] wrapper
+			limit = 60
+		}
+		for i := 0; i < len(gd); i++ {
+			bl := (c.Params().N.BitLen() + 7) / 8
+			structural := i < limit || (i >= 33+bl-2 && i < 33+bl+8)
+			if !structural && !thorough() {
+				continue
+			}
+			for b := 0; b < 8; b++ {
+				m := append([]byte{}, gd...)
+				m[i] ^= byte(1 << b)
+				parseCase(fmt.Sprintf("pkcs8-%s-bit-%d.%d", n, i, b), m, good)
+			}
+		}
+	}
+	// hand-made structures around the optional members and the places where trailing data may sit
+	for _, n := range []string{"P-256", "brainpoolP384t1"} {
+		c := curveByName[n]
+		bl := (c.Params().N.BitLen() + 7) / 8
+		d := new(big.Int).Rand(rng, new(big.Int).Sub(c.Params().N, big.NewInt(2)))
+		good := ecKey(n, d.Add(d, big.NewInt(1)))
+		for _, q := range quirkKeys(n, good, bl) {
+			parseCase("pkcs8-"+n+"-quirk-"+q.name, q.der, good)
+		}
+	}
 	bits := []int{1024, 1536, 2048}
 	if thorough() {
 		bits = append(bits, 3072, 4096)
@@ -267,6 +306,127 @@ func handPkcs8(name string, d *big.Int, width int, pub *ecdsa.PrivateKey, versio
 		Key     []byte
 	}{version, alg, ib})
 	return ob
+}
+
+type quirk struct {
+	name string
+	der  []byte
+}
+
+// DER by hand: tlv(tag, parts...) with a definite minimal length
+func tlv(tag byte, parts ...[]byte) []byte {
+	var c []byte
+	for _, p := range parts {
+		c = append(c, p...)
+	}
+	return tlvLen(tag, len(c), c)
+}
+
+// the header announces [l] octets, whatever the content holds
+func tlvLen(tag byte, l int, c []byte) []byte {
+	out := []byte{tag}
+	switch {
+	case l < 128:
+		out = append(out, byte(l))
+	case l < 256:
+		out = append(out, 0x81, byte(l))
+	default:
+		out = append(out, 0x82, byte(l>>8), byte(l))
+	}
+	return append(out, c...)
+}
+
+func quirkKeys(name string, good *ecdsa.PrivateKey, bl int) []quirk {
+	curveOid := map[string]asn1.ObjectIdentifier{"P-256": {1, 2, 840, 10045, 3, 1, 7}, "brainpoolP384t1": {1, 3, 36, 3, 3, 2, 8, 1, 1, 12}}[name]
+	otherOid := asn1.ObjectIdentifier{1, 3, 132, 0, 34} // P-384
+	oidB, _ := asn1.Marshal(curveOid)
+	otherB, _ := asn1.Marshal(otherOid)
+	ecpk, _ := asn1.Marshal(asn1.ObjectIdentifier{1, 2, 840, 10045, 2, 1})
+	sc := make([]byte, bl)
+	good.D.FillBytes(sc)
+	pub := append([]byte{0}, pointBytes(good.Curve, good.X, good.Y)...)
+	v0 := []byte{2, 1, 0}
+	v1 := []byte{2, 1, 1}
+	null := []byte{5, 0}
+	bits := tlv(3, pub)
+	a1 := tlv(0xa1, bits)
+	a0 := tlv(0xa0, oidB)
+	outer := func(ver, alg, inner []byte, tail ...[]byte) []byte {
+		return tlv(0x30, append([][]byte{ver, alg, tlv(4, inner)}, tail...)...)
+	}
+	algStd := tlv(0x30, ecpk, oidB)
+	inner := func(parts ...[]byte) []byte { return tlv(0x30, append([][]byte{v1, tlv(4, sc)}, parts...)...) }
+	std := inner(a1)
+	var qs []quirk
+	add := func(n string, d []byte) { qs = append(qs, quirk{n, d}) }
+	add("standard", outer(v0, algStd, std))
+	// trailing material
+	add("inner-trailing-null", outer(v0, algStd, inner(a1, null)))
+	add("inner-trailing-null-octet", outer(v0, algStd, inner(a1, null, []byte{0})))
+	add("inner-trailing-garbage", outer(v0, algStd, inner(a1, []byte{0xff, 0xff, 0xff})))
+	add("inner-null-instead-of-a1", outer(v0, algStd, inner(null)))
+	add("inner-null-octet-instead-of-a1", outer(v0, algStd, inner(null, []byte{0})))
+	add("inner-nothing-optional", outer(v0, algStd, inner()))
+	add("outer-trailing-null", outer(v0, algStd, std, null))
+	add("outer-trailing-garbage", outer(v0, algStd, std, []byte{0xff}))
+	add("after-inner-sequence", outer(v0, algStd, append(append([]byte{}, std...), 1, 2, 3)))
+	add("after-outer-sequence", append(outer(v0, algStd, std), 0xde, 0xad))
+	// the [1] wrapper
+	for _, dl := range []int{-4, -1, 1, 4, 60} {
+		add(fmt.Sprintf("a1-length%+d", dl), outer(v0, algStd, tlv(0x30, v1, tlv(4, sc), tlvLen(0xa1, len(bits)+dl, bits))))
+	}
+	add("a1-empty", outer(v0, algStd, inner([]byte{0xa1, 0})))
+	add("a1-primitive", outer(v0, algStd, inner(tlv(0x81, bits))))
+	add("a1-holds-null", outer(v0, algStd, inner(tlv(0xa1, null))))
+	add("a1-holds-constructed-bits", outer(v0, algStd, inner(tlv(0xa1, tlv(0x23, pub)))))
+	add("a1-bits-shorter", outer(v0, algStd, tlv(0x30, v1, tlv(4, sc), tlv(0xa1, tlvLen(3, len(pub)-2, pub)))))
+	add("a1-bits-longer", outer(v0, algStd, tlv(0x30, v1, tlv(4, sc), tlv(0xa1, tlvLen(3, len(pub)+2, pub)))))
+	add("a1-bits-padding-7", outer(v0, algStd, inner(tlv(0xa1, tlv(3, append([]byte{7}, pub[1:]...))))))
+	add("a1-bits-padding-8", outer(v0, algStd, inner(tlv(0xa1, tlv(3, append([]byte{8}, pub[1:]...))))))
+	add("a1-bits-empty", outer(v0, algStd, inner(tlv(0xa1, tlv(3)))))
+	add("a1-twice", outer(v0, algStd, inner(a1, a1)))
+	// the [0] wrapper
+	add("a0-and-a1", outer(v0, algStd, inner(a0, a1)))
+	add("a1-then-a0", outer(v0, algStd, inner(a1, a0)))
+	add("a0-empty", outer(v0, algStd, inner([]byte{0xa0, 0}, a1)))
+	add("a0-holds-integer", outer(v0, algStd, inner(tlv(0xa0, v1), a1)))
+	add("a0-other-curve-outer-wins", outer(v0, algStd, inner(tlv(0xa0, otherB), a1)))
+	add("a0-bad-oid", outer(v0, algStd, inner(tlv(0xa0, []byte{6, 2, 0x2a, 0x80}), a1)))
+	add("a0-oid-leading-80", outer(v0, algStd, inner(tlv(0xa0, []byte{6, 3, 0x2a, 0x80, 0x01}), a1)))
+	add("a0-length-1", outer(v0, algStd, tlv(0x30, v1, tlv(4, sc), tlvLen(0xa0, 1, oidB), a1)))
+	add("a0-length-big", outer(v0, algStd, tlv(0x30, v1, tlv(4, sc), tlvLen(0xa0, 100, oidB), a1)))
+	// outer parameters
+	add("no-outer-params-inner-a0", outer(v0, tlv(0x30, ecpk), inner(a0, a1)))
+	add("no-outer-params-no-inner", outer(v0, tlv(0x30, ecpk), std))
+	add("outer-null-params-inner-a0", outer(v0, tlv(0x30, ecpk, null), inner(a0, a1)))
+	add("outer-null-params-inner-other", outer(v0, tlv(0x30, ecpk, null), inner(tlv(0xa0, otherB), a1)))
+	add("outer-two-params", outer(v0, tlv(0x30, ecpk, oidB, otherB), std))
+	add("outer-two-params-other-first", outer(v0, tlv(0x30, ecpk, otherB, oidB), std))
+	add("outer-params-truncated", outer(v0, tlv(0x30, ecpk, tlvLen(6, len(oidB)+3, oidB[2:])), std))
+	add("outer-params-sequence", outer(v0, tlv(0x30, ecpk, tlv(0x30, oidB)), inner(a0, a1)))
+	add("outer-unknown-curve", outer(v0, tlv(0x30, ecpk, []byte{6, 3, 0x2a, 3, 4}), inner(a0, a1)))
+	add("outer-bad-oid-params", outer(v0, tlv(0x30, ecpk, []byte{6, 2, 0x2a, 0x80}), inner(a0, a1)))
+	add("alg-oid-unknown", outer(v0, tlv(0x30, []byte{6, 3, 0x2a, 3, 4}, oidB), std))
+	add("alg-not-sequence", outer(v0, tlv(0x31, ecpk, oidB), std))
+	// versions and integers
+	add("outer-version-5", outer([]byte{2, 1, 5}, algStd, std))
+	add("outer-version-negative", outer([]byte{2, 1, 0xff}, algStd, std))
+	add("outer-version-nonminimal", outer([]byte{2, 2, 0, 0}, algStd, std))
+	add("outer-version-9-octets", outer([]byte{2, 9, 1, 0, 0, 0, 0, 0, 0, 0, 0}, algStd, std))
+	add("outer-version-empty", outer([]byte{2, 0}, algStd, std))
+	add("inner-version-nonminimal", outer(v0, algStd, tlv(0x30, []byte{2, 2, 0, 1}, tlv(4, sc), a1)))
+	add("inner-version-0", outer(v0, algStd, tlv(0x30, v0, tlv(4, sc), a1)))
+	add("inner-version-2", outer(v0, algStd, tlv(0x30, []byte{2, 1, 2}, tlv(4, sc), a1)))
+	// the scalar
+	add("scalar-constructed", outer(v0, algStd, tlv(0x30, v1, tlv(0x24, tlv(4, sc)), a1)))
+	add("scalar-empty", outer(v0, algStd, tlv(0x30, v1, tlv(4), a1)))
+	add("scalar-short", outer(v0, algStd, tlv(0x30, v1, tlv(4, sc[len(sc)-5:]), a1)))
+	add("key-octets-not-ec", outer(v0, algStd, []byte{0x30, 0}))
+	add("key-octets-empty", outer(v0, algStd, nil))
+	// lengths
+	add("long-form-short-length", append([]byte{0x30, 0x81, 5}, []byte{2, 1, 0, 5, 0}...))
+	add("indefinite-length", append([]byte{0x30, 0x80}, outer(v0, algStd, std)[2:]...))
+	return qs
 }
 
 // ---------------------------------------------------------------- PEM container
